@@ -29,7 +29,7 @@ RULE = ("scenario = seeded antenna/elements/backend and 1-3 recordings requested
 COMPONENTS = C02.COMPONENTS
 ASSUMPTIONS = ["only the total drawn from the antenna is judged, not how it is split over requests",
                "a duration within 1e-9 (relative) of a block boundary may resolve either way"]
-PROBES = ["backend_from_data", "from_data_request_exceeds_input", "from_data_whole_input", "duration_exact_multiple", "duration_mode", "duration_zero_blocks", "retry_after_fault", "array_source",
+PROBES = ["num_subblocks_reassigned_between_recordings", "backend_from_data", "from_data_request_exceeds_input", "from_data_whole_input", "duration_exact_multiple", "duration_mode", "duration_zero_blocks", "retry_after_fault", "array_source",
           "second_recording_same_backend", "non_dyadic_rate"]
 
 
@@ -55,6 +55,8 @@ def generate(rng, tier):
         if rng.random() < 0.12:
             op["fault"] = rng.choice([{"kind": "enospc", "at": rng.randint(1, 40)}, {"kind": "source", "at": rng.randint(1, 5)},
                                       {"kind": "interrupt", "at": rng.randint(1, 300)}])
+        if ops and rng.random() < 0.3:
+            op["set_subblocks"] = rng.randint(1, be["W"] + 2)
         ops.append(op)
     onto = None
     if rng.random() < 0.3:
@@ -134,6 +136,9 @@ def execute(sc, ctx):
 
     def run_ops(ops, backend, antenna, log, prefix, clip):
       for j, op in enumerate(ops):
+          if op.get("set_subblocks") and j > 0:
+              backend.num_subblocks = W._icast(el)(op["set_subblocks"])
+              ctx.hit("num_subblocks_reassigned_between_recordings")
           ctx.op("record" + ("+fault" if op.get("fault") else "") + ("/dur" if "dur" in op else "/n"))
           op2 = dict(op)
           want_n = None
